@@ -185,6 +185,9 @@ type memConn struct {
 	cuts  map[int]bool // a read never crosses a cut offset
 	one   bool         // one byte per read
 	reads int
+	// hooks run once when the next read starts exactly at that offset (a cut is placed there, so the
+	// buffered reader asks for these bytes only after everything before them has been consumed and processed)
+	hooks map[int]func()
 }
 
 func (c *memConn) Read(p []byte) (int, error) {
@@ -192,6 +195,10 @@ func (c *memConn) Read(p []byte) (int, error) {
 		return 0, io.EOF
 	}
 	c.reads++
+	if h := c.hooks[c.pos]; h != nil {
+		delete(c.hooks, c.pos)
+		h()
+	}
 	n := len(p)
 	if n > len(c.data)-c.pos {
 		n = len(c.data) - c.pos
@@ -200,7 +207,7 @@ func (c *memConn) Read(p []byte) (int, error) {
 		n = 1
 	}
 	for k := 1; k < n; k++ {
-		if c.cuts[c.pos+k] {
+		if c.cuts[c.pos+k] || c.hooks[c.pos+k] != nil {
 			n = k
 			break
 		}
@@ -223,6 +230,8 @@ type e2eItem struct {
 	Clear bool             // the 5-byte marker
 	Frame *cptvframe.Frame // else a frame
 	Bad   bool             // frame with a zero pixel inside the border
+	// Request: a TakeTestRecording D-Bus request arrives here (between two frames); no bytes on the socket
+	Request bool
 }
 
 // ---- reference run: a real MotionProcessor driven directly
@@ -283,6 +292,10 @@ func (s e2eSettings) reference(items []e2eItem) []*refRec {
 	ts := &refSink{kind: 't', all: &all}
 	mp := motion.NewMotionProcessor(e2eParser(s.Model), &mc, rc, &goconfig.Location{}, nil, mrec, s.cam(), cs, ts)
 	for _, it := range items {
+		if it.Request {
+			mp.StartSnapshot = true // what TakeTestRecording does to the processor
+			continue
+		}
 		if it.Clear {
 			mp.Reset(s.cam())
 			continue
@@ -303,6 +316,9 @@ type e2eResult struct {
 func (s e2eSettings) stream(items []e2eItem) []byte {
 	b := s.header()
 	for _, it := range items {
+		if it.Request {
+			continue
+		}
 		if it.Clear {
 			b = append(b, []byte("clear")...)
 			continue
@@ -312,7 +328,27 @@ func (s e2eSettings) stream(items []e2eItem) []byte {
 	return b
 }
 
+// requestOffsets returns the stream offsets at which the Request items of the list sit.
+func (s e2eSettings) requestOffsets(items []e2eItem) []int {
+	var offs []int
+	n := len(s.header())
+	for _, it := range items {
+		switch {
+		case it.Request:
+			offs = append(offs, n)
+		case it.Clear:
+			n += 5
+		default:
+			n += len(s.rawFrame(it.Frame))
+		}
+	}
+	return offs
+}
+
 var frameLogIntervalFirstMin0, frameLogInterval0 = frameLogIntervalFirstMin, frameLogInterval
+
+// e2eHooks, when set, is handed to the next connection made by runHandleConn (offset -> action).
+var e2eHooks map[int]func()
 
 // runHandleConn feeds the byte stream to the real handleConn; the caller removes res.dir.
 func (s e2eSettings) runHandleConn(data []byte, cuts map[int]bool, oneByte bool) (res e2eResult, conn *memConn) {
@@ -333,7 +369,8 @@ func (s e2eSettings) runHandleConn(data []byte, cuts map[int]bool, oneByte bool)
 	// handleConn multiplies these package variables by fps on every call
 	frameLogIntervalFirstMin, frameLogInterval = frameLogIntervalFirstMin0, frameLogInterval0
 	processor, headerInfo = nil, nil
-	conn = &memConn{data: data, cuts: cuts, one: oneByte}
+	conn = &memConn{data: data, cuts: cuts, one: oneByte, hooks: e2eHooks}
+	e2eHooks = nil
 	res.dir = base
 	func() {
 		defer func() {
